@@ -334,4 +334,314 @@ theorem handleRead_pres (s : St) (i : Inv s) : Pres s (handleRead R s).1 := by
     exact Pres.trans hp (readFromBuffer_pres R s1 hp.1 p (hpos p rfl))
   · rename_i s1 heq; rw [heq] at hp; exact hp
 
+
+theorem resolveWrites_rs : ∀ (l : List (Nat × Nat)) (s : St), RS s (resolveWrites s l) := by
+  intro l
+  induction l with
+  | nil => intro s; exact ⟨rfl, rfl, rfl, rfl, rfl, rfl, rfl, rfl, rfl, rfl⟩
+  | cons x rest ih =>
+    intro s
+    obtain ⟨idx, f⟩ := x
+    unfold resolveWrites
+    split
+    · exact ⟨rfl, rfl, rfl, rfl, rfl, rfl, rfl, rfl, rfl, rfl⟩
+    · refine RS.trans ?_ (ih _)
+      exact ⟨rfl, rfl, rfl, rfl, rfl, rfl, rfl, rfl, rfl, by simp [St.emit, evBytes_append, evBytes]⟩
+
+theorem handleWrite_pres (s : St) (i : Inv s) : Pres s (handleWrite R s) := by
+  unfold handleWrite
+  split
+  · exact (resolveWrites_rs _ s).pres i
+  · split
+    · have r : RS s { s with wdone := s.wdone + s.wpend, wpend := 0 } := ⟨rfl, rfl, rfl, rfl, rfl, rfl, rfl, rfl, rfl, rfl⟩
+      exact (RS.trans r (resolveWrites_rs _ _)).pres i
+    · exact (resolveWrites_rs _ s).pres i
+    · exact (close_pres R s i _).1
+
+theorem handleConnect_pres (s : St) (i : Inv s) : Pres s (handleConnect R s) := by
+  unfold handleConnect
+  split
+  · have r : RS s { s with error := ‹ErrK› } := ⟨rfl, rfl, rfl, rfl, rfl, rfl, rfl, rfl, rfl, rfl⟩
+    exact Pres.trans (r.pres i) (close_pres R _ (r.inv i) _).1
+  · split
+    · have r : RS s { (({ s with cfut := none } : St).emit (.settle ‹Nat› .stream)) with connecting := false } :=
+        ⟨rfl, rfl, rfl, rfl, rfl, rfl, rfl, rfl, rfl, by simp [St.emit, evBytes_append, evBytes]⟩
+      exact r.pres i
+    · have r : RS s { s with connecting := false } := ⟨rfl, rfl, rfl, rfl, rfl, rfl, rfl, rfl, rfl, rfl⟩
+      exact r.pres i
+
+theorem evWrite_pres (s : St) (i : Inv s) (w : Bool) : Pres s (evWrite R s w) := by
+  have h : Pres s (if w = true then handleWrite R s else s) := by
+    split
+    · exact handleWrite_pres R s i
+    · exact Pres.refl i
+  unfold evWrite
+  generalize (if w = true then handleWrite R s else s) = s3 at h
+  split
+  · exact Pres.refl i
+  · split
+    · exact h
+    · have r : RS s3 (evState s3) := ⟨rfl, rfl, rfl, rfl, rfl, rfl, rfl, rfl, rfl, rfl⟩
+      exact Pres.trans h (r.pres h.1)
+
+theorem handleEvents_pres (s : St) (i : Inv s) (r w : Bool) : Pres s (handleEvents R s r w) := by
+  have hc : Pres s (evConnect R s) := by
+    unfold evConnect; split
+    · exact handleConnect_pres R s i
+    · exact Pres.refl i
+  unfold handleEvents
+  generalize evConnect R s = s1 at hc
+  split
+  · exact Pres.refl i
+  · split
+    · exact hc
+    · have hr : Pres s1 (evRead R s1 r).1 := by
+        unfold evRead; split
+        · exact handleRead_pres R s1 hc.1
+        · exact Pres.refl hc.1
+      generalize evRead R s1 r = x at hr
+      obtain ⟨s2, u⟩ := x
+      cases u
+      · exact Pres.trans hc (Pres.trans hr (evWrite_pres R s2 hr.1 w))
+      · exact Pres.trans hc (Pres.trans hr (close_pres R s2 hr.1 _).1)
+
+theorem dispatch_pres (s : St) (i : Inv s) (r w : Bool) : Pres s (dispatch R s r w) := by
+  unfold dispatch
+  split
+  · split
+    · exact handleEvents_pres R s i _ _
+    · exact Pres.refl i
+  · exact Pres.refl i
+
+theorem tryInlineRead_pres (s : St) (i : Inv s) : Pres s (tryInlineRead R s).1 := by
+  unfold tryInlineRead
+  split
+  · exact Pres.refl i
+  · rename_i p hp; exact readFromBuffer_pres R s i p hp
+  · split
+    · exact Pres.refl i
+    · obtain ⟨hp, hpos⟩ := readLoop_pres R s i
+      generalize readLoop R s = x at hp hpos
+      obtain ⟨s1, res⟩ := x
+      cases res with
+      | raised r => exact hp
+      | pos q =>
+        cases q with
+        | none => exact Pres.trans hp ((addIo_rs s1 _ _).pres hp.1)
+        | some p => exact Pres.trans hp (readFromBuffer_pres R s1 hp.1 p (hpos p rfl))
+
+theorem finishInline_pres (s : St) (i : Inv s) (c : Bool) (f : Nat) : Pres s (finishInline R c s f).1 := by
+  unfold finishInline
+  have hp := tryInlineRead_pres R s i
+  generalize tryInlineRead R s = x at hp
+  obtain ⟨s1, res⟩ := x
+  cases res with
+  | none => exact hp
+  | some r =>
+    cases r <;> try exact hp
+    dsimp only
+    split
+    · exact Pres.trans hp (close_pres R s1 hp.1 _).1
+    · exact hp
+
+
+theorem startRead_inr (s s1 : St) (f : Nat) (h : startRead s = .inr (s1, f)) :
+    s.rfut = none ∧ s1 = { s with rfut := some s.nextId, nextId := s.nextId + 1 } ∧ f = s.nextId := by
+  unfold startRead at h
+  split at h
+  · split at h <;> simp at h
+  · rename_i hf
+    simp at h
+    exact ⟨hf, h.1.symm, h.2.symm⟩
+
+/-- installing the parameters of a new read on an idle stream keeps the invariant -/
+theorem start_inv (s : St) (f nid : Nat) (rb : Option Nat) (rp : Bool)
+    (rd : Option Bytes) (rr mx : Option Nat) (uc : Bool) (us : Option Nat)
+    (h1 : uc = true → rb = none ∧ rd = none ∧ rr = none ∧ us = none)
+    (h2 : ∀ n, us = some n → rb = some n ∧ rd = none ∧ rr = none ∧ s.buf.length ≤ n)
+    (h3 : s.closed = true → uc = false) :
+    Inv { s with rfut := some f, nextId := nid, rbytes := rb, rpartial := rp, rdelim := rd, rregex := rr,
+                 rmax := mx, ruc := uc, user := us } := by
+  constructor
+  · intro h; simp at h
+  · intro h; exact h1 h
+  · intro n h; exact h2 n h
+  · intro _; rfl
+  · intro h; exact h3 h
+
+def fed : Op → Bytes
+  | .feed b => b
+  | _ => []
+
+theorem readInto_pres (s : St) (i : Inv s) (n : Nat) (part : Bool) :
+    Pres s (readInto R s n part).1 := by
+  unfold readInto
+  split
+  · exact Pres.refl i
+  · rename_i s1 f hs
+    obtain ⟨hf, e1, _⟩ := startRead_inr s s1 f hs
+    subst e1
+    have hp := i.idle hf
+    have hruc : s.ruc = false := by
+      cases h : s.ruc with
+      | false => rfl
+      | true => have := i.rucf h; simp [hf] at this
+    dsimp only
+    split
+    · -- completes at once from the buffer
+      rename_i hn
+      apply (fun (h : Pres s _) => Pres.trans h ((maybeAdd_rs _).pres h.1))
+      constructor
+      · constructor <;> simp_all [ParamsNone, St.emit]
+      · simp [C11.acc, St.emit, evBytes_append, evBytes]
+    · rename_i hn
+      have i2 : Inv { s with rfut := some s.nextId, nextId := s.nextId + 1, user := some n, rbytes := some n,
+                             rpartial := part } := by
+        have := start_inv s s.nextId (s.nextId + 1) (some n) part s.rdelim s.rregex s.rmax s.ruc (some n)
+          (by intro h; simp [hruc] at h)
+          (by intro m hm; simp at hm; subst hm; exact ⟨rfl, hp.2.1, hp.2.2.1, by omega⟩)
+          (fun _ => hruc)
+        exact this
+      exact Pres.trans ⟨i2, rfl⟩ (finishInline_pres R _ i2 false f)
+
+
+theorem not_ruc_of_idle (s : St) (i : Inv s) (hf : s.rfut = none) : s.ruc = false := by
+  cases h : s.ruc with
+  | false => rfl
+  | true => have := i.rucf h; simp [hf] at this
+
+/-- a read method other than `read_into`: `_start_read`, set the parameters, `_try_inline_read` -/
+theorem readStart_pres (s : St) (i : Inv s) (c : Bool) (rb : Option Nat) (rp : Bool) (rd : Option Bytes)
+    (rr mx : Option Nat) (uc : Bool) (hc : s.closed = true → uc = false)
+    (h1 : uc = true → rb = none ∧ rd = none ∧ rr = none) (s1 : St) (f : Nat) (hs : startRead s = .inr (s1, f)) :
+    Pres s (finishInline R c { s1 with rbytes := rb, rpartial := rp, rdelim := rd, rregex := rr, rmax := mx,
+                                       ruc := uc } f).1 := by
+  obtain ⟨hf, e1, _⟩ := startRead_inr s s1 f hs
+  subst e1
+  have hp := i.idle hf
+  have i2 : Inv { s with rfut := some s.nextId, nextId := s.nextId + 1, rbytes := rb, rpartial := rp, rdelim := rd,
+                         rregex := rr, rmax := mx, ruc := uc } := by
+    have := start_inv s s.nextId (s.nextId + 1) rb rp rd rr mx uc s.user
+      (by intro h; obtain ⟨a, b, c⟩ := h1 h; exact ⟨a, b, c, hp.2.2.2⟩)
+      (by intro m hm; rw [hp.2.2.2] at hm; simp at hm)
+      hc
+    exact this
+  exact Pres.trans ⟨i2, rfl⟩ (finishInline_pres R _ i2 c f)
+
+theorem doStep_pres (s : St) (i : Inv s) (op : Op) :
+    Inv (doStep R s op).1 ∧ C11.acc (doStep R s op).1 = C11.acc s ++ fed op := by
+  cases op with
+  | feed b =>
+    simp only [doStep, fed]
+    have hm : Inv (if b.isEmpty then s else { s with inc := s.inc ++ [b] }) ∧
+        C11.acc (if b.isEmpty then s else { s with inc := s.inc ++ [b] }) = C11.acc s ++ b := by
+      split
+      · rename_i hb; simp at hb; subst hb; exact ⟨i, by simp⟩
+      · obtain ⟨a, b', c, d, e⟩ := i
+        exact ⟨⟨a, b', c, d, e⟩, by simp [C11.acc]⟩
+    have := dispatch_pres R _ hm.1 true false
+    exact ⟨this.1, this.2.trans hm.2⟩
+  | eof =>
+    simp only [doStep, fed, List.append_nil]
+    have r : RS s { s with eof := true } := ⟨rfl, rfl, rfl, rfl, rfl, rfl, rfl, rfl, rfl, rfl⟩
+    exact Pres.trans (r.pres i) (dispatch_pres R _ (r.inv i) true false)
+  | rerr k =>
+    simp only [doStep, fed, List.append_nil]
+    have r : RS s { s with rerr := some k } := ⟨rfl, rfl, rfl, rfl, rfl, rfl, rfl, rfl, rfl, rfl⟩
+    exact Pres.trans (r.pres i) (dispatch_pres R _ (r.inv i) true false)
+  | readBytes n part =>
+    simp only [doStep, fed, List.append_nil]
+    split
+    · exact Pres.refl i
+    · rename_i s1 f hs
+      obtain ⟨hf, e1, _⟩ := startRead_inr s s1 f hs
+      have hp := i.idle hf
+      have := readStart_pres R s i false (some n) part s.rdelim s.rregex s.rmax s.ruc
+        (fun _ => not_ruc_of_idle s i hf) (by intro h; rw [not_ruc_of_idle s i hf] at h; simp at h) s1 f hs
+      subst e1
+      exact this
+  | readInto n part =>
+    simp only [doStep, fed, List.append_nil]
+    exact readInto_pres R s i n part
+  | readUntil d mx =>
+    simp only [doStep, fed, List.append_nil]
+    split
+    · exact Pres.refl i
+    · rename_i s1 f hs
+      obtain ⟨hf, e1, _⟩ := startRead_inr s s1 f hs
+      have hp := i.idle hf
+      have := readStart_pres R s i true s.rbytes s.rpartial (some d) s.rregex mx s.ruc
+        (fun _ => not_ruc_of_idle s i hf) (by intro h; rw [not_ruc_of_idle s i hf] at h; simp at h) s1 f hs
+      subst e1
+      exact this
+  | readRegex rid mx =>
+    simp only [doStep, fed, List.append_nil]
+    split
+    · exact Pres.refl i
+    · rename_i s1 f hs
+      obtain ⟨hf, e1, _⟩ := startRead_inr s s1 f hs
+      have hp := i.idle hf
+      have := readStart_pres R s i true s.rbytes s.rpartial s.rdelim (some rid) mx s.ruc
+        (fun _ => not_ruc_of_idle s i hf) (by intro h; rw [not_ruc_of_idle s i hf] at h; simp at h) s1 f hs
+      subst e1
+      exact this
+  | readUntilClose =>
+    simp only [doStep, fed, List.append_nil]
+    split
+    · exact Pres.refl i
+    · rename_i s1 f hs
+      obtain ⟨hf, e1, _⟩ := startRead_inr s s1 f hs
+      have hp := i.idle hf
+      have hr := not_ruc_of_idle s i hf
+      split
+      · rename_i hc
+        subst e1
+        refine ⟨finishRead_inv _ _ ⟨hp.1, hp.2.1, hp.2.2.1⟩ hr, ?_⟩
+        rw [finishRead_acc _ _ rfl (by intro h; simp [hp.2.2.2] at h)]; rfl
+      · rename_i hc
+        have hc' : s.closed = false := by subst e1; simpa using hc
+        have := readStart_pres R s i false s.rbytes s.rpartial s.rdelim s.rregex s.rmax true
+          (by intro h; simp [hc'] at h) (fun _ => ⟨hp.1, hp.2.1, hp.2.2.1⟩) s1 f hs
+        subst e1
+        exact this
+  | close exc =>
+    simp only [doStep, fed, List.append_nil]
+    exact (close_pres R s i _).1
+  | setCb =>
+    simp only [doStep, fed, List.append_nil]
+    have r : RS s { s with cb := true } := ⟨rfl, rfl, rfl, rfl, rfl, rfl, rfl, rfl, rfl, rfl⟩
+    exact (RS.trans r (maybeAdd_rs _)).pres i
+  | write n =>
+    simp only [doStep, fed, List.append_nil]
+    split
+    · exact Pres.refl i
+    · have r : RS s { s with wpend := s.wpend + n, wtotal := s.wtotal + n, nextId := s.nextId + 1,
+                             wfuts := s.wfuts ++ [(s.wtotal + n, s.nextId)] } :=
+        ⟨rfl, rfl, rfl, rfl, rfl, rfl, rfl, rfl, rfl, rfl⟩
+      split
+      · exact r.pres i
+      · have h2 := Pres.trans (r.pres i) (handleWrite_pres R _ (r.inv i))
+        generalize handleWrite R _ = s2 at h2
+        have h3 : Pres s (if (decide (0 < s2.wpend) && !s2.closed) = true then addIo s2 false true else s2) := by
+          split
+          · exact Pres.trans h2 ((addIo_rs s2 _ _).pres h2.1)
+          · exact h2
+        exact Pres.trans h3 ((maybeAdd_rs _).pres h3.1)
+  | wmode m =>
+    simp only [doStep, fed, List.append_nil]
+    have r : RS s { s with wmode := m } := ⟨rfl, rfl, rfl, rfl, rfl, rfl, rfl, rfl, rfl, rfl⟩
+    exact r.pres i
+  | writable =>
+    simp only [doStep, fed, List.append_nil]
+    exact dispatch_pres R s i false true
+  | connect =>
+    simp only [doStep, fed, List.append_nil]
+    have r : RS s { s with connecting := true, cfut := some s.nextId, nextId := s.nextId + 1 } :=
+      ⟨rfl, rfl, rfl, rfl, rfl, rfl, rfl, rfl, rfl, rfl⟩
+    exact (RS.trans r (addIo_rs _ _ _)).pres i
+  | cerr k =>
+    simp only [doStep, fed, List.append_nil]
+    have r : RS s { s with cerr := some k } := ⟨rfl, rfl, rfl, rfl, rfl, rfl, rfl, rfl, rfl, rfl⟩
+    exact r.pres i
+
 end TornadoModel.C11
